@@ -29,13 +29,15 @@ PART_FILE = xc.PART_FILE
 RULE = ("generated UFO-3 fonts (1-3 layers, glyphs with outlines/components/anchors/guidelines/image/lib, info, kerning, "
         "groups, features, lib, images, data; package directory or .ufoz zip) x histories built from scripted epochs "
         "[in-memory edits | external edit batch | test | lazy reads | reload / accept deletions | second test | "
-        "usability probes: read unread glyph/image/data, save, test] and random op soup; external edits: byte change, "
+        "usability probes: read unread glyph/image/data, save or save-as, test], scripted delete-in-memory / save-as / "
+        "external re-creation patterns for glyphs (read or never read), images and data, and random op soup; external edits: byte change, "
         "touch-only, byte change with unchanged mtime, file creation, file deletion, glyph addition/removal with "
         "contents.plist updated, layer addition/removal/reorder/default change with layercontents.plist updated; "
         "non-trivial = at least one external edit followed by a test and at least one in-memory edit, lazy read or save; "
         "distinct = distinct (spec, structure, ops)")
 ASSUMPTIONS = [
-    "UFO format 3 only; saves are in place (font.save()); one font object per UFO; single thread; no renames of glyphs or "
+    "UFO format 3 only; saves are in place (font.save()) or save-as to a path where nothing exists, same structure "
+    "(the font is bound to the new UFO afterwards, external edits then go there); one font object per UFO; single thread; no renames of glyphs or "
     "layers in memory; glyphs carry no components (a component's observers load its base glyph, which entangles lazy "
     "loading with names whose files were deleted externally and not yet taken over)",
     "external edits write the bytes fontTools.ufoLib writes for a value (bytes <-> value one to one; checked at run time "
@@ -208,6 +210,9 @@ def model_lines(case):
             lines.append([A(k), op[1], opt(None if op[2] is None else base + op[2])])
         elif k in ("imgget", "datget"):
             lines.append([A(k), op[1]])
+        elif k == "saveas":
+            nsave += 1
+            lines.append([A("saveas"), SAVE_TIME + nsave, 1000000 + nsave])
         elif k == "save":
             nsave += 1
             # times written by this save: distinct from every harness time and from every other save
@@ -468,9 +473,17 @@ class Impl(object):
         if k == "datget":
             b = font.data[op[1]]
             return opt(None) if b is None else [Atom("some"), dat_id(b)]
-        if k == "save":
+        if k in ("save", "saveas"):
             self.nsave = getattr(self, "nsave", 0) + 1
-            font.save()
+            if k == "saveas":
+                # save-as to a path where nothing exists, same structure; the font is bound to the new UFO afterwards
+                # (the old one stays where it is and is no longer looked at)
+                newpath = os.path.join(os.path.dirname(self.path), "f%d.%s" % (self.nsave + 1, "ufoz" if self.is_zip else "ufo"))
+                font.save(newpath)
+                self.path = newpath
+                self.io = xc.DiskIO(newpath, self.is_zip)
+            else:
+                font.save()
             self.refresh_files()
             if self.is_zip:
                 # ufoLib rewrites the archive, every entry dated now (two-second granularity): make the times
@@ -762,12 +775,20 @@ class Oracle(object):
 
     # ----- record keeping ----------------------------------------------------------------
 
-    def after_save(self, before, dirty_before, after):
+    def after_save(self, before, dirty_before, after, full=False):
+        """full: a save-as - everything the font holds was written to a new UFO, which is the UFO from now on"""
         R = self.R
         files = self.impl.files
         self.view = files
         self.listing = files
         self.stale_default = False
+        if full:
+            dirty_before = {"parts": set(PARTS), "glyphs": {ln: set(after["glyphs"][ln]) for ln in after["order"]},
+                            "img": set(after["img"]), "dat": set(after["dat"])}
+            self.stale_layers = set()
+            self.same_mtime = set()
+            for ln in list(R.layers):
+                R.layers[ln]["pending"] = {}
         written = {"info", "groups", "lib"} | (dirty_before["parts"] & {"kerning", "features"})
         for p in after["parts"]:
             if p in written or p not in before["parts"]:
@@ -820,8 +841,8 @@ class Oracle(object):
         after = mem_state(font)
         ok = status == "ok"
         rep = impl.last_report
-        if k == "save" and ok:
-            self.after_save(before, dirty_before, after)
+        if k in ("save", "saveas") and ok:
+            self.after_save(before, dirty_before, after, full=(k == "saveas"))
             return
         if k == "test" and ok:
             # the test refreshes the font's reader; glyphs reported as added are taken into the layer's keys
@@ -1273,6 +1294,19 @@ def run_impl(case):
             outside_model = k == "save" and save_outside_model(font, impl.files)
             stale_default_before = oracle.stale_default
             mem_deleted_before = set(oracle.mem_deleted_layers)
+            saveas_loadable = True
+            if k == "saveas":
+                # a save-as reads every glyph it has not read yet through the bound glyph sets
+                vw = oracle.reader_view()
+                for ln in before["order"]:
+                    ld = xc.layer_dir(oracle.listing, ln)
+                    listed = xc.glyph_contents(oracle.listing, ld) if ld else {}
+                    for gn in before["keys"][ln] - before["glyphs"][ln]:
+                        if gn not in listed or glyph_bytes(vw, ln, gn) is None:
+                            saveas_loadable = False
+                unread_before = {ln: {gn: glyph_bytes(vw, ln, gn) for gn in before["keys"][ln] - before["glyphs"][ln]}
+                                 for ln in before["order"]}
+                read_before = {ln: dict(oracle.R.layers.get(ln, {"glyphs": {}})["glyphs"]) for ln in before["order"]}
             status, result = impl.do(op)
             if k == "xldefault" and result == "ok":
                 oracle.stale_default = True
@@ -1283,6 +1317,9 @@ def run_impl(case):
                 now = set(impl.font.layers.layerOrder)
                 oracle.stale_layers = {n for n in oracle.stale_layers if (n in on_disk) != (n in now)}
             st = "ok" if status == "ok" else "err:" + str(status[1])
+            if k == "saveas" and st != "ok" and not saveas_loadable:
+                # a listed glyph can no longer be read (deleted externally and not taken over): not judged
+                oracle.tainted = True
             if k == "save" and (stale_default_before or oracle.stale_layers) and st != "ok":
                 # a save over a UFO whose layer structure another program changed and the font has not taken over
                 # (ASSUMPTIONS): not judged
@@ -1294,8 +1331,8 @@ def run_impl(case):
                 stats[kk] = stats.get(kk, 0) + 1
             if st != "ok":
                 stats[st] = stats.get(st, 0) + 1
-            if k == "save" and st == "ok" and impl.is_zip:
-                oracle.same_mtime = set()       # the archive was rewritten: every entry has a new time
+            if k in ("save", "saveas") and st == "ok" and (impl.is_zip or k == "saveas"):
+                oracle.same_mtime = set()       # the archive was rewritten / a new UFO written: every file has a new time
             if k == "save" and st == "ok" and oracle.same_mtime:
                 # a save that changes the default layer moves glyph directories: the files keep bytes and mtimes
                 hv = lambda v: (v[0], repr(v[1]))
@@ -1336,8 +1373,26 @@ def run_impl(case):
                             want = [Atom("some"), dat_id(exp_bytes)]
                         if want is not None and result != want:
                             oracle.add("usable", "%s/stale-content" % k, i, op, expected=repr(want), observed=repr(result))
-                if k == "save" and st != "ok":
-                    oracle.add("usable", "save/%s" % st[4:], i, op, error=result)
+                if k in ("save", "saveas") and st != "ok":
+                    oracle.add("usable", "%s/%s" % (k, st[4:]), i, op, error=result)
+                if k == "saveas" and st == "ok":
+                    # the new UFO holds every glyph the font lists: what it had read (unless edited since), or what the
+                    # file it reads now held
+                    for ln in before["order"]:
+                        for gn in sorted(before["keys"][ln]):
+                            b1 = glyph_bytes(impl.files, ln, gn)
+                            if b1 is None:
+                                oracle.add("usable", "saveas/lost-glyph-file", i, op, layer=ln, glyph=gn)
+                                break
+                            want = unread_before[ln].get(gn)
+                            if gn in before["glyphs"][ln] and gn not in dirty_before["glyphs"].get(ln, set()):
+                                want = read_before[ln].get(gn)
+                            if want is not None and b1 != want:
+                                oracle.add("usable", "saveas/changed-clean-glyph-file", i, op, layer=ln, glyph=gn)
+                                break
+                        for gn in sorted(set(xc.glyph_contents(impl.files, xc.layer_dir(impl.files, ln) or "?")) - before["keys"][ln]):
+                            oracle.add("usable", "saveas/wrote-deleted-glyph", i, op, layer=ln, glyph=gn)
+                            break
                 if k == "save" and st == "ok":
                     # a save keeps every glyph file the font lists and did not rewrite
                     for ln in before["order"]:
@@ -1385,7 +1440,7 @@ def run_impl(case):
             oracle.after_op(i, op, before, dirty_before, st, result)
             if k in ("reload", "acceptdel") and x_since_test:
                 oracle.tainted = True
-            if k in ("test", "save") and st == "ok":
+            if k in ("test", "save", "saveas") and st == "ok":
                 x_since_test = False
             elif k[0] == "x" and result == "ok":
                 x_since_test = True
@@ -1402,7 +1457,7 @@ def run_impl(case):
                                        order=False, defaultLayer=False), images=dict(modified=[], added=[]),
                            data=dict(modifiedData=[], addedData=[]))
                 oracle.judge_reload(i, op, rep)
-            if k == "save" and (st != "ok" or outside_model):
+            if k in ("save", "saveas") and (st != "ok" or outside_model):
                 failed_save = True
                 outs.append([Atom("err"), Atom("save-failed")])
                 continue
@@ -1491,6 +1546,9 @@ class Sim(object):
         self.parts_on_disk = {"info", "lib"} | ({"features"} if spec["features"] is not None else set()) | \
             ({"kerning"} if spec["kerning"] else set()) | ({"groups"} if spec["groups"] else set())
         self.images = dict(spec["images"])
+        self.data = dict(spec["data"])
+        # content of glyph files as far as the generator knows it (to write "the same bytes again")
+        self.gspecs = {(l["name"], gn): g for l in spec["layers"] for gn, g in l["glyphs"].items()}
         self.mem_deleted = set()     # layers deleted in memory since the last save
         self.frozen = set()          # layers whose directories moved / vanished externally and were not re-synchronised
         self.no_save = False
@@ -1533,11 +1591,13 @@ class Sim(object):
             gn = rng.choice(fg.GLYPH_NAMES)
             self.mem_layers.setdefault(ln, set()).add(gn)
             self.loaded.setdefault(ln, set()).add(gn)
+            self.gspecs.pop((ln, gn), None)
             return [["gnew", ln, gn]]
         if r < 0.56:
             gn = self.glyph(names)
             if gn in names:
                 self.loaded.setdefault(ln, set()).add(gn)
+            self.gspecs.pop((ln, gn), None)
             return [["gset", ln, gn, gen_glyph(rng, gn, self.images)]]
         if r < 0.64:
             gn = self.glyph(names)
@@ -1601,6 +1661,20 @@ class Sim(object):
         self.disk_dat |= self.mem_dat
         return [["save"]]
 
+    def saveas(self):
+        """save-as to a new path: the new UFO is what the font holds (needs every listed glyph to be readable)"""
+        if self.frozen:
+            return []
+        self.mem_deleted = set()
+        self.no_save = False
+        self.disk_layers = {n: set(self.mem_layers[n]) for n in self.mem_order}
+        self.loaded = {n: set(self.mem_layers[n]) for n in self.mem_order}
+        self.disk_order = list(self.mem_order)
+        self.disk_default = self.mem_default
+        self.disk_img = set(self.mem_img)
+        self.disk_dat = set(self.mem_dat)
+        return [["saveas"]]
+
     # ----- external ops ------------------------------------------------------------------------
 
     def tmode(self, can_keep):
@@ -1629,11 +1703,15 @@ class Sim(object):
             if a < 0.4:
                 gn = self.glyph(names)
                 names.add(gn)
-                return [["xglyph", ln, gn, "write", gen_glyph(rng, gn, self.images), self.tmode(gn in names)]]
+                gs_ = gen_glyph(rng, gn, self.images)
+                self.gspecs[(ln, gn)] = gs_
+                return [["xglyph", ln, gn, "write", gs_, self.tmode(gn in names)]]
             if a < 0.6:
                 gn = rng.choice(fg.GLYPH_NAMES)
                 names.add(gn)
-                return [["xglyph", ln, gn, "write", gen_glyph(rng, gn, self.images), self.time()]]
+                gs_ = gen_glyph(rng, gn, self.images)
+                self.gspecs[(ln, gn)] = gs_
+                return [["xglyph", ln, gn, "write", gs_, self.time()]]
             if a < 0.8:
                 return [["xglyph", ln, self.glyph(names), "touch", None, self.time()]]
             gn = self.glyph(names)
@@ -1646,7 +1724,9 @@ class Sim(object):
             a = rng.random()
             if a < 0.55:
                 self.disk_img.add(n)
-                return [["ximg", n, "write", rng.randint(1, 6), self.tmode(True)]]
+                sd = rng.randint(1, 6)
+                self.images[n] = sd
+                return [["ximg", n, "write", sd, self.tmode(True)]]
             if a < 0.8:
                 return [["ximg", n, "touch", None, self.time()]]
             self.disk_img.discard(n)
@@ -1656,7 +1736,9 @@ class Sim(object):
             a = rng.random()
             if a < 0.55:
                 self.disk_dat.add(n)
-                return [["xdat", n, "write", rng.randint(0, 6), self.tmode(True)]]
+                sd = rng.randint(0, 6)
+                self.data[n] = sd
+                return [["xdat", n, "write", sd, self.tmode(True)]]
             if a < 0.8:
                 return [["xdat", n, "touch", None, self.time()]]
             self.disk_dat.discard(n)
@@ -1870,6 +1952,56 @@ def scenario(sim, k):
             gn = rng.choice(c)
             sim.loaded[ln].add(gn)
             return [["xglyph", ln, gn, "write", g(gn), sim.time()], ["test"], ["gget", ln, gn]]
+    if k == 14 and both:
+        # a glyph (read before, or never read) deleted in memory; save-as; another program puts a glyph of that name into
+        # the NEW UFO - the very bytes that were deleted, or other bytes; test, reload, test, save
+        gn = rng.choice(both)
+        same = sim.gspecs.get((ln, gn)) if rng.random() < 0.6 else None
+        ops = ([["gget", ln, gn]] if rng.random() < 0.5 else []) + [["gdel", ln, gn]]
+        sim.mem_layers[ln].discard(gn)
+        sa = sim.saveas()
+        if not sa:
+            return ops
+        spec_new = same if same is not None else g(gn)
+        ops += sa + [["xglyph", ln, gn, "write", spec_new, sim.time()], ["test"], ["reload"], ["test"]]
+        sim.gspecs[(ln, gn)] = spec_new
+        sim.disk_layers[ln].add(gn)
+        sim.mem_layers[ln].add(gn)
+        sim.loaded[ln].add(gn)
+        return ops + sim.save() + [["test"]]
+    if k in (15, 16):
+        # the same for an image / a data file
+        key, names, xop, seeds = ("img", sim.mem_img & sim.disk_img, "ximg", sim.images) if k == 15 else \
+            ("dat", sim.mem_dat & sim.disk_dat, "xdat", sim.data)
+        if names:
+            n = rng.choice(sorted(names))
+            ops = ([[key + "get", n]] if rng.random() < 0.5 else []) + [[key, n, None]]
+            (sim.mem_img if k == 15 else sim.mem_dat).discard(n)
+            sa = sim.saveas()
+            if not sa:
+                return ops
+            sd = seeds.get(n) if (n in seeds and rng.random() < 0.6) else rng.randint(7, 9)
+            ops += sa + [[xop, n, "write", sd, sim.time()], ["test"], ["reload"], ["test"]]
+            seeds[n] = sd
+            (sim.mem_img if k == 15 else sim.mem_dat).add(n)
+            (sim.disk_img if k == 15 else sim.disk_dat).add(n)
+            return ops + sim.save() + [["test"]]
+    if k == 17:
+        # things that exist only in memory (a glyph, a layer, an image), then save-as: they are on disk now
+        ops = []
+        gn = rng.choice(fg.GLYPH_NAMES)
+        ops.append(["gnew", ln, gn])
+        sim.mem_layers[ln].add(gn)
+        sim.loaded[ln].add(gn)
+        sim.gspecs.pop((ln, gn), None)
+        free = [n for n in fg.LAYER_NAMES if n not in sim.mem_order and n not in sim.disk_order and n not in sim.mem_deleted]
+        if free and rng.random() < 0.6:
+            ops.append(["lnew", free[0]])
+            sim.mem_order.append(free[0])
+            sim.mem_layers[free[0]] = set()
+            sim.loaded[free[0]] = set()
+        ops += sim.saveas()
+        return ops
     if k in (12, 13):
         # an image / data file deleted in memory, then touched or rewritten (or removed and created again) on disk
         key, names, xop = ("img", sim.mem_img & sim.disk_img, "ximg") if k == 12 else ("dat", sim.mem_dat & sim.disk_dat, "xdat")
@@ -1935,7 +2067,7 @@ def gen_case(rng, tier):
                 ops += sim.save()
             # B. scripted pattern and/or a batch of external edits
             if rng.random() < 0.6:
-                ops += scenario(sim, rng.randrange(14))
+                ops += scenario(sim, rng.randrange(18))
             for _ in range(rng.randint(0, 3)):
                 ops += sim.x_op()
             # C. in-memory ops while the external edits are unnoticed
@@ -1957,7 +2089,7 @@ def gen_case(rng, tier):
                 if rng.random() < 0.7:
                     ops += sim.probes()
                 if rng.random() < 0.5:
-                    s = sim.save()
+                    s = sim.saveas() if rng.random() < 0.25 else sim.save()
                     ops += s
                     if s:
                         ops.append(["test"])
@@ -1980,7 +2112,7 @@ def gen_case(rng, tier):
                     ops.append(["acceptdel"])
                     sim.after_accept()
             elif r < 0.96:
-                ops += sim.save()
+                ops += sim.saveas() if rng.random() < 0.2 else sim.save()
             elif r < 0.98:
                 ops.append(["reloadpart", rng.choice(PARTS)])
             else:
@@ -1993,7 +2125,7 @@ def gen_case(rng, tier):
 
 
 def generate(rng, tier):
-    n = 500 if tier == "quick" else 4000
+    n = 450 if tier == "quick" else 4000
     for c in witness_cases():
         yield c
     for _ in range(n):
@@ -2005,7 +2137,7 @@ def neighbourhood(case, step, rng):
     ops = case["ops"]
     prefix = ops[:step + 1]
     tails = [[["test"]], [["test"], ["reload"], ["test"]], [["test"], ["reload"], ["acceptdel"], ["test"], ["save"], ["test"]],
-             [["save"], ["test"]]]
+             [["save"], ["test"]], [["saveas"], ["test"]], [["test"], ["reload"], ["acceptdel"], ["saveas"], ["test"]]]
     spec = case["spec"]
     for l in spec["layers"]:
         for gn in sorted(l["glyphs"]):
